@@ -24,6 +24,13 @@ RAC = {
     'lhs_frontend': dict(crate='harper-literate-haskell', attach='harper-literate-haskell/src/lib.rs', file='lhs.rs', test='rac_lhs_frontend', function='LiterateHaskellParser / LiterateHaskellMasker'),
     'currency_conflict_free': dict(crate=CORE, attach=S + 'linting/currency_placement.rs', file='currency.rs', test='rac_currency_conflict_free', function='CurrencyPlacement::lint (caller of remove_overlaps)'),
     'mask_push': dict(crate=CORE, attach=S + 'mask/mod.rs', file='mask.rs', test='rac_mask_push', function='Mask::push_allowed'),
+    'stats_roundtrip': dict(crate='harper-stats', attach='harper-stats/src/lib.rs', file='stats.rs', test='rac_stats_roundtrip', function='Stats::write / Stats::read / Stats::summarize'),
+    'title_case': dict(crate=CORE, attach=S + 'title_case.rs', file='title_case.rs', test='rac_title_case', function='make_title_case_str / make_title_case / should_capitalize_token'),
+    'ignored_lints': dict(crate=CORE, attach=S + 'ignored_lints/mod.rs', file='ignored.rs', test='rac_ignored_lints', needs_corpus=True, function='IgnoredLints::{ignore_lint, is_ignored, remove_ignored} + LintContext::from_lint'),
+    'rule_switches': dict(crate=CORE, attach=S + 'linting/lint_group.rs', file='rule_switches.rs', test='rac_rule_switches', needs_corpus=True, function='LintGroup::lint (is_rule_enabled gates) + LintGroupConfig::{merge_from, fill_with_curated, set_*, is_rule_enabled}'),
+    'paragraph_independence': dict(crate=CORE, attach=S + 'linting/lint_group.rs', file='paragraphs.rs', test='rac_paragraph_independence', needs_corpus=True, function='LintGroup::lint over Document::new (whole pipeline, relational)'),
+    'spell_check': dict(crate=CORE, attach=S + 'linting/spell_check.rs', file='spell_check.rs', test='rac_spell_check', function='SpellCheck::lint + Document::parse (dictionary metadata) + suggest_correct_spelling'),
+    'wasm_api': dict(crate='harper-wasm', attach='harper-wasm/src/lib.rs', file='wasm_api.rs', test='rac_wasm_api', function='harper_wasm::Linter::{lint, apply_suggestion, ignore_lint, export/import_ignored_lints, import/export_words, set_lint_config_from_json}, to_title_case, to_json/from_json'),
     'typst_frontend': dict(crate='harper-typst', attach='harper-typst/src/lib.rs', file='typst.rs', test='rac_typst_frontend', function='Typst parser (typst_translator, offset_cursor)'),
 }
 # Verus piece name -> runtime contract checks that exercise the same clause on the real code
